@@ -18,8 +18,8 @@ tree BY MEANING, not by the shape of the source. The package is imported from --
                through `Shelxfile.read_string`), it reproduces `str(atom)` of the UNMODIFIED package character by
                character. A reading that does not is discarded; if none is left the table is reported as lost.
 
-The chunk size of FVARs.__str__ is measured (files with 1..99 free variables), the list of printer overrides is read
-from the method resolution order of the imported classes.
+The chunk size of FVARs.__str__ is measured (files with 1..99 free variables); whether a class computes its text or
+gives back the stored line is decided by behaviour (see `overrides`).
 
 Prints one JSON object after the line `C01-PROBE-RESULT`.
 usage: probe_c01.py --repo /repo
@@ -765,14 +765,33 @@ class Oracle:
             out.append(str(a))
         return out
 
-    def check(self, layout, pieces, qconst=None):
-        """None if the pieces reproduce every probe, else the first difference"""
+    def check(self, layout, pieces, qconst=None, layout_only=False):
+        """None if the pieces reproduce every probe line, else the first difference.
+        layout_only: the numbers are taken from the printed line itself instead of from the probe file (the U of a Q-peak
+        line excepted) — what is confirmed then is the layout alone (alignment, width, precision of each field, blanks
+        between them), not that the code prints the values of the file; the latter is the business of the sampled
+        correspondence, which runs the model on thousands of files and reports the failing input."""
         real = self.real.get(layout)
         if not isinstance(real, list):
             return f'no reference: {real}'
         for (name, sfac, nums), want in zip(self.probes[layout], real):
             try:
-                got = render(pieces, KINDS[layout], expected_vals(layout, name, sfac, nums, qconst))
+                vals = expected_vals(layout, name, sfac, nums, qconst)
+                if layout_only:
+                    if not want.startswith(name):
+                        return f'{name}: the printed line {want!r} does not start with the name'
+                    # the numbers of the printed line, read one after the other with the precision the candidate gives
+                    # each field (columns may touch: '-1234.5000012345.25000' is two numbers of five decimals)
+                    pos = len(name)
+                    for k, f in enumerate(fields_of(pieces)[1:], 1):
+                        pat = r' *(-?\d+)' if f[3] is None else r' *(-?\d+\.\d{%d})' % f[3]
+                        m = re.compile(pat).match(want, pos)
+                        if not m:
+                            return f'{name}: no number with {f[3]} decimals at column {pos} of {want!r}'
+                        pos = m.end()
+                        if not (layout == 'qpeak' and k == 6):
+                            vals[k] = int(m.group(1)) if f[3] is None else float(m.group(1))
+                got = render(pieces, KINDS[layout], vals)
             except Exception as e:
                 return f'{type(e).__name__}: {e}'
             if got != want:
@@ -893,22 +912,45 @@ def fvar_chunk(Shelxfile):
     return c, ''
 
 
-def overrides():
-    """classes of shelx/cards.py (and Atom) whose str() is computed by something other than the stored-text printers of
-    Command / Restraint — resolved along the method resolution order of the imported classes"""
+STORED = ['ZZZZ', 'odd', '0.100', '+5', 'C1_2', '1e-1']      # a line no printer that computes its text would give back
+
+
+def overrides(Shelxfile):
+    """classes of shelx/cards.py (and Atom) whose str() is computed instead of being the stored line — decided by
+    behaviour: an instance of a subclass of Command / Restraint that has ONLY the state every card has (made without
+    running the subclass's __init__, with the attributes a plain Command / Restraint of the line `STORED` has) either
+    gives that line back, like the plain card does, or it does not (it reaches for attributes of its own, or prints
+    something else). However the printers are provided — own methods, `__str__ = __repr__`, mixins, decorators, a
+    template method in a common base — does not matter. Classes outside that hierarchy (FVAR, FVARs, SFACTable,
+    SymmCards, Restraints, Atom) have no stored line: they count iff they define a printer at all."""
     cards = importlib.import_module(PKG + '.shelx.cards')
     atom_mod = importlib.import_module(PKG + '.atoms.atom')
     base_cls = [getattr(cards, n) for n in ('Command', 'Restraint') if inspect.isclass(getattr(cards, n, None))]
     if not base_cls:
         raise LookupError('cards.Command / cards.Restraint not found')
+    with quiet():
+        shx = Shelxfile()
+        plain = {}
+        for b in base_cls:
+            obj = b(shx, list(STORED))
+            plain[b] = (dict(vars(obj)), str(obj))
+
     def printer(c):
-        """the function str(instance) runs: __str__ along the MRO, __repr__ where nothing but object defines __str__"""
         return c.__str__ if c.__str__ is not object.__str__ else c.__repr__
-    base = {printer(c) for c in base_cls}
 
     def computed(c):
-        f = printer(c)
-        return f is not object.__repr__ and f not in base
+        b = next((k for k in c.__mro__ if k in base_cls), None)
+        if b is None:
+            return printer(c) is not object.__repr__
+        state, want = plain[b]
+        try:
+            with quiet():
+                fake = object.__new__(c)
+                fake.__dict__.update(state)
+                got = str(fake)
+        except Exception:
+            return True
+        return got != want
     out = []
     for n, c in vars(cards).items():
         if inspect.isclass(c) and c.__module__ == cards.__name__ and c not in base_cls and n == c.__name__ \
@@ -961,13 +1003,19 @@ def main(repo, use_spy=True, use_search=True):
                 cands.append((how, p, None))
         good = []
         why_not = []
-        for how, p, c in cands:
-            err = oracle.check(layout, p, c)
-            if err is None:
-                if (p, c) not in [(g[1], g[2]) for g in good]:
-                    good.append((how, p, c))
-            elif how == 'spy':
-                why_not.append(f'{layout}: the reading of the spy pass does not reproduce the code: {err}')
+        for layout_only in (False, True):
+            for how, p, c in cands:
+                err = oracle.check(layout, p, c, layout_only=layout_only)
+                if err is None:
+                    if (p, c) not in [(g[1], g[2]) for g in good]:
+                        good.append((how, p, c))
+                elif how == 'spy':
+                    why_not.append(f'{layout}: the reading of the spy pass does not reproduce the code: {err}')
+            if good:
+                if layout_only:
+                    res['notes'].append(f'{layout}: the layout is confirmed on the printed lines, but the code does not print the '
+                                        f'values of the probe file ({why_not[0] if why_not else "see the correspondence stream"})')
+                break
         res['notes'] += why_not
         if not good:
             sols = infer(oracle, layout)
@@ -1005,7 +1053,7 @@ def main(repo, use_spy=True, use_search=True):
         res['chunk'] = None
         res['lost'].append(f'FVARs.__str__: the number of values per line cannot be measured: {type(e).__name__}: {e}')
     try:
-        res['overrides'] = overrides()
+        res['overrides'] = overrides(oracle.Shelxfile)
     except Exception as e:
         res['overrides'] = None
         res['lost'].append(f'printer overrides: {type(e).__name__}: {e}')
